@@ -20,11 +20,11 @@ func TestC06(t *testing.T) {
 	defer r.Close()
 	r.Meta(vc.Meta{
 		Level:       "fault_enumeration",
-		Rule:        "case = one scenario with concurrent callers whose requests are merged and split across batches, an export outcome script and caller cancellations/deadlines, run in a synctest bubble. Layer 'outcomes' takes a base scenario with k<=6 exports and runs ALL 2^k success/failure assignments of its export sequence; layer 'cancel' places a cancellation of one request at every distinct virtual instant of a base scenario's event log (before enqueue, while buffered, while exporting, after) and at +-1ns around it; layer 'random' samples scenarios with PRNG scripts and hook delays. Oracle (offline, over the boundary log): early_return=false and own context alive: ret follows the export_end of every export that carried one of its uids, all uids were exported, err==nil iff all those exports returned nil, else errors.Is(err, e) for every failing export e; own context ended first: ret at the same virtual instant with errors.Is(err, ctx.Err()), items at most once; early_return=true: nil at the instant the request was queued. A call that has not returned one hour of virtual time after the last scripted activity, or a bubble deadlock, is a violation. Non-trivial = a request spread over >=2 batches or a batch serving >=2 requests with >=1 failing export. Distinct = (config, requests, failure script, cancel point).",
+		Rule:        "case = one scenario with concurrent callers whose requests are merged and split across batches, an export outcome script and caller cancellations/deadlines, run in a synctest bubble. Layer 'outcomes' takes a base scenario with k<=6 exports and runs ALL 2^k success/failure assignments of its export sequence; layer 'cancel' places a cancellation of one request at every distinct virtual instant of a base scenario's event log (before enqueue, while buffered, while exporting, after) and at +-1ns around it; layer 'random' samples scenarios with PRNG scripts and hook delays; layer 'delay-sweep' runs a base scenario without hook delays and re-runs it once per (hook hit, duration) with exactly that one hit held back (then PRNG pairs of hits). Oracle (offline, over the boundary log): early_return=false and own context alive: ret follows the export_end of every export that carried one of its uids, all uids were exported, err==nil iff all those exports returned nil, else errors.Is(err, e) for every failing export e; own context ended first: ret at the same virtual instant with errors.Is(err, ctx.Err()), items at most once; early_return=true: nil at the instant the request was queued. A call that has not returned one hour of virtual time after the last scripted activity, or a bubble deadlock, is a violation. Non-trivial = a request spread over >=2 batches or a batch serving >=2 requests with >=1 failing export. Distinct = (config, requests, failure script, cancel point).",
 		Assumptions: append([]string{"'promptly' is restated as: zero virtual time after the context ended (no caller-side hook delays in scenarios with cancellations)", "export outcomes are assigned by arrival order at the next consumer"}, bpAssumptions...),
 		Gates: map[string]map[string]int{
-			"quick":    {"scenarios": 500, "requests_spread_over_2+_batches": 100, "requests_with_failing_export": 100, "requests_cancelled_before_completion": 40, "batches_serving_2+_requests": 100, "outcome_assignments_enumerated": 100, "calls_that_blocked_on_a_full_shard_channel": 20},
-			"thorough": {"scenarios": 15000, "requests_spread_over_2+_batches": 3000, "requests_with_failing_export": 3000, "requests_cancelled_before_completion": 1000, "batches_serving_2+_requests": 3000, "outcome_assignments_enumerated": 3000, "calls_that_blocked_on_a_full_shard_channel": 300},
+			"quick":    {"scenarios": 500, "requests_spread_over_2+_batches": 100, "requests_with_failing_export": 100, "requests_cancelled_before_completion": 40, "batches_serving_2+_requests": 100, "outcome_assignments_enumerated": 100, "calls_that_blocked_on_a_full_shard_channel": 20, "delay_sweep_single_delays_enumerated": 1000},
+			"thorough": {"scenarios": 15000, "requests_spread_over_2+_batches": 3000, "requests_with_failing_export": 3000, "requests_cancelled_before_completion": 1000, "batches_serving_2+_requests": 3000, "outcome_assignments_enumerated": 3000, "calls_that_blocked_on_a_full_shard_channel": 300, "delay_sweep_single_delays_enumerated": 30000},
 		},
 		ExhaustiveLayers:   []string{"outcomes (all 2^k failure assignments for k<=6 exports)", "cancel (every distinct virtual instant of the base run, +-1ns)"},
 		HangIsViolationFor: []string{"C06"},
@@ -116,6 +116,16 @@ func TestC06(t *testing.T) {
 		if c.Idx < 6 {
 			c.Sample(map[string]any{"layer": "backpressure", "callers": len(sc.Reqs), "victims": nv, "calls_blocked_on_hand_off": blocked, "config": sc.Cfg.String(), "export_latency": slow.String()})
 		}
+	})
+	// systematic single-delay enumeration (sweep_test.go). Caller-side points are swept only when the base has
+	// neither early_return nor cancellations (their delays would be measured as the component's latency).
+	r.Layer("delay-sweep", e.Pick(16, 240), func(c *vc.Case) {
+		sc := GenScenario(c.R, Profile{Sig: -1, Keys: c.R.IntN(4) == 0, Cancels: c.R.IntN(2) == 0, Fails: true, HookMode: "none", EarlyReturn: -1, MaxCallers: 4})
+		sc.Label = "delay-sweep"
+		callerSide := !sc.Cfg.EarlyReturn && !sc.hasCancels()
+		delaySweep(t, c, sc, c.R.Uint64(), callerSide, e.Pick(120, 400), e.Pick(30, 200), func(run *Run, err error, label string) {
+			post(c, run, err, label)
+		})
 	})
 	r.Layer("outcomes", e.Pick(40, 600), func(c *vc.Case) {
 		sc := GenScenario(c.R, Profile{Sig: -1, Cancels: false, Fails: false, HookMode: "all", EarlyReturn: 0, UnlimitedConc: c.R.IntN(2) == 0})
@@ -544,13 +554,13 @@ func TestC11(t *testing.T) {
 	defer r.Close()
 	r.Meta(vc.Meta{
 		Level:              "exploration",
-		Rule:               "case = one scenario with export latencies 0..10s (virtual), failures, caller cancellations at any point, Shutdown racing the last exports, max_concurrency in {0,1,2,4}, PRNG delays at every hook point. Oracle: (a) the per-combination in-flight gauge (incremented on entry to the next consumer, decremented on return) never exceeds max_concurrency when set; (b) when Shutdown returns every item accepted before it was called has been exported, every export call has returned, and no goroutine is left: in bubble mode synctest fails the run if any bubble goroutine is still blocked at the end, in stress mode the stacks of all goroutines are scanned for processor frames after Shutdown; (c) zero race-detector reports with a repository frame over all workloads (GORACE log files, classified by stack); (d) no deadlock: the bubble's 'all goroutines are blocked' panic (process-fatal, attributed through the journal) is the deciding signal in bubble mode, stress mode only has a watchdog. Non-trivial = scenario that reached the concurrency bound or exported during Shutdown. Distinct = (config, requests, latency script, shutdown mode, hook table).",
+		Rule:               "case = one scenario with export latencies 0..10s (virtual), failures, caller cancellations at any point, Shutdown racing the last exports, max_concurrency in {0,1,2,4}, PRNG delays at every hook point; layer 'delay-sweep' = a base scenario run without hook delays, then re-run once per (hook hit, duration) with exactly that one hit held back, then PRNG pairs. Oracle: (a) the per-combination in-flight gauge (incremented on entry to the next consumer, decremented on return) never exceeds max_concurrency when set; (b) when Shutdown returns every item accepted before it was called has been exported, every export call has returned, and no goroutine is left: in bubble mode synctest fails the run if any bubble goroutine is still blocked at the end, in stress mode the stacks of all goroutines are scanned for processor frames after Shutdown; (c) zero race-detector reports with a repository frame over all workloads (GORACE log files, classified by stack); (d) no deadlock: the bubble's 'all goroutines are blocked' panic (process-fatal, attributed through the journal) is the deciding signal in bubble mode, stress mode only has a watchdog. Non-trivial = scenario that reached the concurrency bound or exported during Shutdown. Distinct = (config, requests, latency script, shutdown mode, hook table).",
 		Assumptions:        bpAssumptions,
 		RaceIsViolation:    true,
 		HangIsViolationFor: []string{"C11"},
 		Gates: map[string]map[string]int{
-			"quick":    {"scenarios": 600, "exports_at_the_concurrency_bound": 300, "exports_during_shutdown": 100, "interleaving_signatures": 200, "goroutine_scans_after_shutdown": 30, "cancel_window_points_enumerated": 300},
-			"thorough": {"scenarios": 20000, "exports_at_the_concurrency_bound": 10000, "exports_during_shutdown": 3000, "interleaving_signatures": 399, "goroutine_scans_after_shutdown": 600, "cancel_window_points_enumerated": 5000},
+			"quick":    {"scenarios": 600, "exports_at_the_concurrency_bound": 300, "exports_during_shutdown": 100, "interleaving_signatures": 200, "goroutine_scans_after_shutdown": 30, "cancel_window_points_enumerated": 300, "delay_sweep_single_delays_enumerated": 1000},
+			"thorough": {"scenarios": 20000, "exports_at_the_concurrency_bound": 10000, "exports_during_shutdown": 3000, "interleaving_signatures": 399, "goroutine_scans_after_shutdown": 600, "cancel_window_points_enumerated": 5000, "delay_sweep_single_delays_enumerated": 30000},
 		},
 	})
 	e := r.Env
@@ -631,6 +641,18 @@ func TestC11(t *testing.T) {
 			c.Count("cancel_window_points_enumerated", 1)
 		}
 		c.Sample(map[string]any{"layer": "cancel-window", "batches_of_the_split_request": nb, "ctx_err_delay": d.String(), "cancel_instants": fmt.Sprint(ts), "base": sc.Describe()})
+	})
+	// systematic single-delay enumeration (sweep_test.go), ctx.Err windows included
+	r.Layer("delay-sweep", e.Pick(16, 240), func(c *vc.Case) {
+		sc := GenScenario(c.R, Profile{Sig: -1, Keys: c.R.IntN(4) == 0, Cancels: c.R.IntN(3) != 0, Fails: true, HookMode: "none", EarlyReturn: -1, MaxCallers: 4})
+		sc.CtxHooks = c.R.IntN(2) == 0
+		if sc.Cfg.MaxConcurrency == 0 && c.R.IntN(2) == 0 {
+			sc.Cfg.MaxConcurrency = uint32(1 + c.R.IntN(2))
+		}
+		sc.Label = "delay-sweep"
+		delaySweep(t, c, sc, c.R.Uint64(), true, e.Pick(120, 400), e.Pick(30, 200), func(run *Run, err error, label string) {
+			post(c, run, err, label)
+		})
 	})
 	r.Layer("bubble", e.Pick(600, 20000), func(c *vc.Case) {
 		sc := GenScenario(c.R, Profile{Sig: -1, Keys: c.R.IntN(3) == 0, Cancels: c.R.IntN(2) == 0, Fails: true, HookMode: "all", EarlyReturn: -1, MaxCallers: 8, CtxHooks: true})
